@@ -501,6 +501,8 @@ func (p *Process) onProcessEnd(state string) {
 	p.done = true
 	p.Unlock()
 	p.procCond.Broadcast()
+	// a process that ended without ever starting will not start any more
+	p.runCancelFn()
 }
 
 func (p *Process) getLogPath() string {
